@@ -167,6 +167,24 @@ def gen_cases(rec, rng, tier):
                     if w0:
                         lw.append((w0 * 12)[:rng.choice([9, 11, 16])])
                 yield {'cls': 'random_%s_long_words' % (bias or 'plain'), 'tree': t, 'n': 1, 'cpu': 2, 'long_words': lw}
+    # a star over a sum of WORDS of different lengths (a + aab + bb)*: matching needs to go back and forth between the end positions
+    # reachable from different start positions
+    def word_tree(w):
+        t = ('s', w[0])
+        for ch in w[1:]:
+            t = ('.', t, ('s', ch))
+        return t
+    for _ in range(300 if thorough else 40):
+        ws = []
+        for _k in range(rng.randint(2, 4)):
+            ws.append(''.join(rng.choice('ab') for _x in range(rng.randint(1, 3))))
+        t = word_tree(ws[0])
+        for w in ws[1:]:
+            t = ('+', t, word_tree(w)) if rng.random() < 0.5 else ('+', word_tree(w), t)
+        t = ('*', t)
+        if rng.random() < 0.3:
+            t = ('.', t, word_tree(rng.choice(ws)))
+        yield {'cls': 'star_over_sum_of_words', 'tree': t, 'n': 6, 'cpu': 2}
     # symbols whose names have several characters (the full text format reads identifiers such as ab or q0 as ONE symbol); the
     # names are chosen so that concatenations are ambiguous (ab . c / a . bc / abc); matcher only
     for _ in range(150 if thorough else 25):
